@@ -9,11 +9,13 @@ pub mod c05;
 pub mod c07;
 pub mod c08;
 pub mod c09;
+pub mod c10;
 pub mod c11;
 pub mod c13;
 pub mod c14;
 pub mod c15;
 pub mod c16;
+pub mod c17;
 pub mod c18;
 pub mod c19;
 pub mod c20;
@@ -28,11 +30,13 @@ pub fn registry() -> Vec<PropertyDef> {
     PropertyDef { id: "C07", run: c07::run, replay: c07::replay },
     PropertyDef { id: "C08", run: c08::run, replay: c08::replay },
     PropertyDef { id: "C09", run: c09::run, replay: c09::replay },
+    PropertyDef { id: "C10", run: c10::run, replay: c10::replay },
     PropertyDef { id: "C11", run: c11::run, replay: c11::replay },
     PropertyDef { id: "C13", run: c13::run, replay: c13::replay },
     PropertyDef { id: "C14", run: c14::run, replay: c14::replay },
     PropertyDef { id: "C15", run: c15::run, replay: c15::replay },
     PropertyDef { id: "C16", run: c16::run, replay: c16::replay },
+    PropertyDef { id: "C17", run: c17::run, replay: c17::replay },
     PropertyDef { id: "C18", run: c18::run, replay: c18::replay },
     PropertyDef { id: "C19", run: c19::run, replay: c19::replay },
     PropertyDef { id: "C20", run: c20::run, replay: c20::replay },
